@@ -18,7 +18,7 @@ func init() {
 		Prop:  "C13",
 		Title: "Caches and pools are semantically invisible",
 		Explanation: "A cache changes a result only if a hit returns what a miss would not compute, i.e. if the key determines less than the computation reads. " +
-			"R13a result-cache key completeness: the key of the per-record result cache is built from Node.ID and the declaration hash (both found by data flow from the map lookup in ParseNode); (i) the hash covers every exported field of Decl/CustomFuncDecl (deepCopy stores each one, each has a json tag that encodes it); (ii) every read of an unexported Decl/CustomFuncDecl field on the evaluation path is classified: the hash itself, content-determined fields (kind: its writer reads only exported fields; children: filled only from Object/Array/Args), path-name strings whose uses are result-neutral (error texts) or in the enumerated table (object member name, root test), and position links (parent) whose every value-affecting read is reported; (iii) no tree surgery (AddChild/RemoveAndReleaseTree) is reachable from ParseNode; (iv) the cache store is control-dependent on err == nil; (v) no exported field of a Decl is written after its hash was computed; (vi) lookup and store use the same key value. " +
+			"R13a result-cache key completeness: the key of the per-record result cache is built from Node.ID and the declaration hash (both found by data flow from the map lookup in ParseNode); (i) the hash covers every exported field of Decl/CustomFuncDecl (deepCopy stores each one, each has a json tag that encodes it; the hashing function encodes json.Marshal(deepCopy(its own parameter)), directly or through helpers of its package followed by return value and parameter binding, the copy is not written on the way, and every interning key is that encoding through injective steps); (ii) every read of an unexported Decl/CustomFuncDecl field on the evaluation path is classified: the hash itself, content-determined fields (kind: its writer reads only exported fields; children: filled only from Object/Array/Args), path-name strings whose uses are result-neutral (error texts) or in the enumerated table (object member name, root test), and position links (parent) whose every value-affecting read is reported; (iii) no tree surgery (AddChild/RemoveAndReleaseTree) is reachable from ParseNode; (iv) the cache store is control-dependent on err == nil; (v) no exported field of a Decl is written after its hash was computed; (vi) lookup and store use the same key value. " +
 			"R13b loader purity for every caches.LoadingCache.Get in the repository and in go-corelib/caches: the loader's free variables are the key itself or immutable. " +
 			"R13d pools: node pool — reset exhaustive and blank, ID from the atomic counter, reset dominates Put, no use after release (= C12 R12b–d); VM pool — set/delete symmetry, cleanup deferred and ordered before Put (= C20 R20a). " +
 			"R13e the cache switches (package-level flags read on the run path, the context's disable flag) have no writer outside package initialisers / the constructor. " +
@@ -451,14 +451,14 @@ func c13DeepCopyCoverage(c *core.Ctx, r *c13roles, rule string) {
 			if w.Kind == "field" && w.Field == r.hashField {
 				found = true
 				call, ok := w.Val.(*ssa.Call)
-				okHash := false
+				var hashing *c13Hashing
 				if ok && call.Call.StaticCallee() != nil {
-					okHash = marshalsDeepCopy(call.Call.StaticCallee(), r)
+					hashing = marshalsDeepCopy(c, call.Call.StaticCallee(), r)
 				}
-				c.Check(okHash, rule, core.FuncKey(f)+" computes hash", w.Pos, "hash = f(json.Marshal(deepCopy(decl)))", "the hash is not computed from the JSON encoding of the declaration's deep copy")
-				if okHash {
-					hashKeyInjective(c, call.Call.StaticCallee(), rule)
-					hashCopyUnmodified(c, call.Call.StaticCallee(), r, rule)
+				c.Check(hashing != nil, rule, core.FuncKey(f)+" computes hash", w.Pos, "hash = f(json.Marshal(deepCopy(decl)))", "the hash is not computed from the JSON encoding of the declaration's deep copy")
+				if hashing != nil {
+					hashKeyInjective(c, hashing, rule)
+					hashCopyUnmodified(c, hashing, r, rule)
 				}
 			}
 		}
@@ -468,73 +468,186 @@ func c13DeepCopyCoverage(c *core.Ctx, r *c13roles, rule string) {
 	}
 }
 
-func marshalsDeepCopy(f *ssa.Function, r *c13roles) bool {
-	for _, ci := range core.Calls(f) {
-		if core.IsCallTo(ci, "encoding/json", "Marshal") {
-			arg := core.Unwrap(ci.Common().Args[0], true)
-			if call, ok := arg.(*ssa.Call); ok {
-				if cf := call.Call.StaticCallee(); cf != nil && cf.Signature.Recv() != nil && core.NamedOf(cf.Signature.Recv().Type()) == r.declT && cf.Signature.Params().Len() == 0 {
-					if p, ok := call.Call.Args[0].(*ssa.Parameter); ok && p.Parent() == f {
-						return true
+// c13Hashing describes how a hashing function f obtains the stable encoding: the json.Marshal call (in f or in a helper
+// of f's package that f reaches through static calls), the deep-copy call whose result it encodes, and the parameter
+// binding between f and the helpers (so that `stableEncoding(decl)` = string(json.Marshal(decl.deepCopy())) is seen
+// exactly like the inlined form).
+type c13Hashing struct {
+	f       *ssa.Function
+	cone    []*ssa.Function // f and its helpers (the copying methods and what they call are not part of it)
+	bind    *f2Binder
+	marshal *ssa.Call   // json.Marshal(copy)
+	copies  []*ssa.Call // the deep-copy call(s) the marshalled value stands for
+	aliases []ssa.Value // parameters through which the copy is handed from the copying function to the marshalling one
+}
+
+// isCopyMethod: role of deepCopy — a parameterless method of Decl (receiver only).
+func isCopyMethod(cf *ssa.Function, r *c13roles) bool {
+	return cf != nil && cf.Signature.Recv() != nil && (core.NamedOf(cf.Signature.Recv().Type()) == r.declT || core.NamedOf(cf.Signature.Recv().Type()) == r.cfT) && cf.Signature.Params().Len() == 0
+}
+
+// c13ResolveHashing finds the json.Marshal(deepCopy(p)) of hashing function f, p being f's own declaration parameter;
+// nil if there is none.
+func c13ResolveHashing(c *core.Ctx, f *ssa.Function, r *c13roles) *c13Hashing {
+	if f == nil || f.Blocks == nil {
+		return nil
+	}
+	h := &c13Hashing{f: f}
+	h.cone = f2Cone(f, func(g *ssa.Function) bool { return isCopyMethod(g, r) })
+	h.bind = f2NewBinder(c, h.cone)
+	for _, g := range h.cone {
+		for _, ci := range core.Calls(g) {
+			m, isCall := ci.(*ssa.Call)
+			if !isCall || !core.IsCallTo(ci, "encoding/json", "Marshal") {
+				continue
+			}
+			origins, aliases, ok := h.bind.origins(m.Call.Args[0])
+			if !ok || len(origins) == 0 {
+				continue
+			}
+			var copies []*ssa.Call
+			good := true
+			for _, o := range origins {
+				call, isCall := o.(*ssa.Call)
+				if !isCall || !isCopyMethod(call.Call.StaticCallee(), r) || core.NamedOf(call.Call.StaticCallee().Signature.Recv().Type()) != r.declT {
+					good = false
+					break
+				}
+				// the copied declaration is the hashing function's own parameter
+				recvs, _, ok := h.bind.origins(call.Call.Args[0])
+				if !ok || len(recvs) == 0 {
+					good = false
+					break
+				}
+				for _, rv := range recvs {
+					if p, isParam := rv.(*ssa.Parameter); !isParam || p.Parent() != f {
+						good = false
 					}
 				}
+				copies = append(copies, call)
+			}
+			if good {
+				h.marshal, h.copies, h.aliases = m, copies, aliases
+				return h
 			}
 		}
 	}
-	return false
+	return nil
+}
+
+func marshalsDeepCopy(c *core.Ctx, f *ssa.Function, r *c13roles) *c13Hashing {
+	return c13ResolveHashing(c, f, r)
 }
 
 // hashCopyUnmodified: the hash covers a field only if the encoded copy still carries it. Between deepCopy and
 // json.Marshal the copy must not be written (seed C13-9 cleared keep_empty_or_null on the copy "because it does not
-// take part in the value": two declarations differing only in it then share a cache entry).
-func hashCopyUnmodified(c *core.Ctx, f *ssa.Function, r *c13roles, rule string) {
-	for _, ci := range core.Calls(f) {
-		if !core.IsCallTo(ci, "encoding/json", "Marshal") {
-			continue
+// take part in the value": two declarations differing only in it then share a cache entry). The copy is followed
+// through the helpers it is handed to: a store rooted at the copy call, at a parameter it is passed through on the
+// way to json.Marshal, or at the parameter of any other repository function that receives it, counts.
+func hashCopyUnmodified(c *core.Ctx, h *c13Hashing, r *c13roles, rule string) {
+	bad := token.NoPos
+	what := ""
+	unknown := ""
+	seen := map[ssa.Value]bool{}
+	var check func(v ssa.Value, d int)
+	check = func(v ssa.Value, d int) {
+		if seen[v] {
+			return
 		}
-		arg := core.Unwrap(ci.Common().Args[0], true)
-		call, ok := arg.(*ssa.Call)
-		if !ok {
-			continue
+		seen[v] = true
+		var fn *ssa.Function
+		switch x := v.(type) {
+		case *ssa.Call:
+			fn = x.Parent()
+		case *ssa.Parameter:
+			fn = x.Parent()
 		}
-		bad := token.NoPos
-		what := ""
-		for _, w := range core.Writes(f) {
-			if w.Root == ssa.Value(call) {
+		if fn == nil {
+			return
+		}
+		for _, w := range core.Writes(fn) {
+			if w.Root == v {
 				bad = w.Pos
 				if w.Field != nil {
 					what = w.Field.Name()
 				}
 			}
 		}
-		key := core.FuncKey(f) + " encodes the deep copy unmodified"
-		if bad.IsValid() {
-			c.Bad(rule, key, bad, "the deep copy is modified (field "+what+") before it is encoded: the hash no longer covers that field, so two declarations differing only in it share a hash and are served each other's cached values")
-		} else {
-			c.OK(rule, key, core.InstrPos(ci), "no store into the copy between deepCopy and json.Marshal")
-		}
-	}
-}
-
-// hashKeyInjective: equal hashes must mean equal encodings. Inside the hashing function every key used with the
-// interning table (map lookup / update), and the hash itself when it is computed rather than interned, must be the
-// json.Marshal result through injective steps only (conversions between []byte and string, tuple extraction, hex/base64
-// text encodings, cryptographic digests). A non-cryptographic digest (hash/*), a length, or a truncating slice makes
-// two different declarations share a hash, and therefore cached values (seed C02-7).
-func hashKeyInjective(c *core.Ctx, f *ssa.Function, rule string) {
-	var marshal *ssa.Call
-	for _, ci := range core.Calls(f) {
-		if core.IsCallTo(ci, "encoding/json", "Marshal") {
-			if cl, ok := ci.(*ssa.Call); ok {
-				marshal = cl
+		// the copy handed on to another function (not the encoder)
+		for _, u := range core.Referrers(v) {
+			ci, ok := u.(ssa.CallInstruction)
+			if !ok || ci == ssa.CallInstruction(h.marshal) {
+				continue
+			}
+			for i, a := range ci.Common().Args {
+				if a != v {
+					continue
+				}
+				g := ci.Common().StaticCallee()
+				if g == nil || !core.InRepo(core.FuncPkg(g)) {
+					continue // library calls (json.Marshal through MakeInterface is not a direct referrer) / dynamic: not the rule's business
+				}
+				if g.Blocks == nil || i >= len(g.Params) || d > 3 {
+					unknown = core.FuncKey(g)
+					continue
+				}
+				check(g.Params[i], d+1)
 			}
 		}
 	}
-	if marshal == nil {
-		return
+	for _, cp := range h.copies {
+		check(cp, 0)
 	}
+	for _, a := range h.aliases {
+		check(a, 0)
+	}
+	key := core.FuncKey(h.marshal.Parent()) + " encodes the deep copy unmodified"
+	switch {
+	case bad.IsValid():
+		c.Bad(rule, key, bad, "the deep copy is modified (field "+what+") before it is encoded: the hash no longer covers that field, so two declarations differing only in it share a hash and are served each other's cached values")
+	case unknown != "":
+		c.Unknown(rule, key, core.InstrPos(h.marshal), "the deep copy is handed to "+unknown+" before it is encoded; whether that modifies it is not decided")
+	default:
+		c.OK(rule, key, core.InstrPos(h.marshal), "no store into the copy between deepCopy and json.Marshal")
+	}
+}
+
+// hashKeyInjective: equal hashes must mean equal encodings. Inside the hashing function (and the helpers of its package
+// it calls) every key used with the interning table (map lookup / update), and the hash itself when it is computed
+// rather than interned, must be the json.Marshal result through injective steps only (conversions between []byte and
+// string, tuple extraction, hex/base64 text encodings, cryptographic digests, helpers that return such a value,
+// parameters bound to such a value). A non-cryptographic digest (hash/*), a length, or a truncating slice makes
+// two different declarations share a hash, and therefore cached values (seed C02-7).
+func hashKeyInjective(c *core.Ctx, h *c13Hashing, rule string) {
+	f := h.f
+	marshal := h.marshal
+	inCone := h.bind.inCone
 	// verdict of a backward walk from v to the marshal result: "" = injective, else the first lossy/unknown step
 	var walk func(v ssa.Value, seen map[ssa.Value]bool) (reached bool, lossy string, unknown string)
+	merge := func(vals []ssa.Value, seen map[ssa.Value]bool) (bool, string, string) {
+		reached, lossy, unknown := false, "", ""
+		for _, e := range vals {
+			r, l, u := walk(e, seen)
+			reached = reached || r
+			if lossy == "" {
+				lossy = l
+			}
+			if unknown == "" {
+				unknown = u
+			}
+		}
+		return reached, lossy, unknown
+	}
+	// results of a helper of the cone: what it returns at position idx
+	returned := func(g *ssa.Function, idx int) []ssa.Value {
+		var out []ssa.Value
+		for _, rt := range c19Returns(g) {
+			if idx < len(rt.Results) {
+				out = append(out, rt.Results[idx])
+			}
+		}
+		return out
+	}
 	walk = func(v ssa.Value, seen map[ssa.Value]bool) (bool, string, string) {
 		if seen[v] {
 			return false, "", ""
@@ -545,7 +658,17 @@ func hashKeyInjective(c *core.Ctx, f *ssa.Function, rule string) {
 			if x.Tuple == ssa.Value(marshal) {
 				return true, "", ""
 			}
+			if call, ok := x.Tuple.(*ssa.Call); ok {
+				if g := call.Call.StaticCallee(); g != nil && inCone[g] && g != f {
+					return merge(returned(g, x.Index), seen)
+				}
+			}
 			return walk(x.Tuple, seen)
+		case *ssa.Parameter:
+			if as, ok := h.bind.args(x); ok {
+				return merge(as, seen)
+			}
+			return false, "", ""
 		case *ssa.Convert:
 			return walk(x.X, seen)
 		case *ssa.ChangeType:
@@ -559,39 +682,25 @@ func hashKeyInjective(c *core.Ctx, f *ssa.Function, rule string) {
 			}
 			return r, l, u
 		case *ssa.Phi:
-			reached, lossy, unknown := false, "", ""
-			for _, e := range x.Edges {
-				r, l, u := walk(e, seen)
-				reached = reached || r
-				if lossy == "" {
-					lossy = l
-				}
-				if unknown == "" {
-					unknown = u
-				}
-			}
-			return reached, lossy, unknown
+			return merge(x.Edges, seen)
 		case *ssa.UnOp:
 			if x.Op == token.MUL {
 				if a, ok := x.X.(*ssa.Alloc); ok {
-					reached, lossy, unknown := false, "", ""
+					var vals []ssa.Value
 					for _, r := range core.Referrers(a) {
 						if st, ok := r.(*ssa.Store); ok && st.Addr == a {
-							rr, l, u := walk(st.Val, seen)
-							reached = reached || rr
-							if lossy == "" {
-								lossy = l
-							}
-							if unknown == "" {
-								unknown = u
-							}
+							vals = append(vals, st.Val)
 						}
 					}
-					return reached, lossy, unknown
+					return merge(vals, seen)
 				}
 			}
 			return false, "", ""
 		case *ssa.Call:
+			if g := x.Call.StaticCallee(); g != nil && inCone[g] && g != f && g.Signature.Results().Len() == 1 {
+				// a helper of the hashing function: as injective as what it returns
+				return merge(returned(g, 0), seen)
+			}
 			reached, lossy, unknown := false, "", ""
 			args := x.Call.Args
 			if x.Call.IsInvoke() {
@@ -650,7 +759,7 @@ func hashKeyInjective(c *core.Ctx, f *ssa.Function, rule string) {
 	}
 	judge := func(what string, v ssa.Value, pos token.Pos) {
 		reached, lossy, unknown := walk(v, map[ssa.Value]bool{})
-		key := core.FuncKey(f) + " " + what
+		key := what
 		switch {
 		case !reached:
 			c.Bad(rule, key, pos, "does not derive from the JSON encoding of the declaration: equal keys no longer mean equal declarations")
@@ -663,62 +772,19 @@ func hashKeyInjective(c *core.Ctx, f *ssa.Function, rule string) {
 		}
 	}
 	n := 0
-	for _, b := range f.Blocks {
-		for _, in := range b.Instrs {
-			switch x := in.(type) {
-			case *ssa.Lookup:
-				if _, isMap := x.X.Type().Underlying().(*types.Map); isMap {
-					judge("interning lookup key", x.Index, core.InstrPos(in))
+	for _, g := range h.cone {
+		for _, b := range g.Blocks {
+			for _, in := range b.Instrs {
+				switch x := in.(type) {
+				case *ssa.Lookup:
+					if _, isMap := x.X.Type().Underlying().(*types.Map); isMap {
+						judge(core.FuncKey(g)+" interning lookup key", x.Index, core.InstrPos(in))
+						n++
+					}
+				case *ssa.MapUpdate:
+					judge(core.FuncKey(g)+" interning store key", x.Key, core.InstrPos(in))
 					n++
-				}
-			case *ssa.MapUpdate:
-				judge("interning store key", x.Key, core.InstrPos(in))
-				n++
-				// the id handed out for a new encoding: distinct encodings must get distinct ids
-				reached, lossy, unknown := walk(x.Value, map[ssa.Value]bool{})
-				vkey := core.FuncKey(f) + " interned hash value"
-				switch {
-				case reached && lossy != "":
-					c.Bad(rule, vkey, core.InstrPos(in), "the id stored for a new encoding derives from the encoding through "+lossy+", which is not injective: two different declarations get the same hash and are served each other's cached values")
-				case reached && unknown != "":
-					c.Unknown(rule, vkey, core.InstrPos(in), "the id stored for a new encoding derives from it through "+unknown+", which is not in the rule's table of injective steps")
-				case reached:
-					c.OK(rule, vkey, core.InstrPos(in), "injective in the encoding")
-				default:
-					fresh := false
-					var scan func(v ssa.Value, d int)
-					seenV := map[ssa.Value]bool{}
-					scan = func(v ssa.Value, d int) {
-						if v == nil || seenV[v] || d > 8 {
-							return
-						}
-						seenV[v] = true
-						if call, ok := v.(*ssa.Call); ok {
-							if o := core.CalleeObj(call); o != nil && o.Pkg() != nil && (o.Pkg().Path() == "github.com/google/uuid" || o.Pkg().Path() == "crypto/rand") {
-								fresh = true
-							}
-							if cf := call.Call.StaticCallee(); cf != nil && cf.Blocks != nil && core.InRepo(core.FuncPkg(cf)) {
-								for _, rt := range c19Returns(cf) {
-									for _, r := range rt.Results {
-										scan(r, d+1)
-									}
-								}
-							}
-						}
-						if ins, ok := v.(ssa.Instruction); ok {
-							for _, op := range ins.Operands(nil) {
-								if *op != nil {
-									scan(*op, d+1)
-								}
-							}
-						}
-					}
-					scan(x.Value, 0)
-					if fresh {
-						c.OK(rule, vkey, core.InstrPos(in), "a fresh random UUID per new encoding (fixed width, unique)")
-					} else {
-						c.Unknown(rule, vkey, core.InstrPos(in), "the id stored for a new encoding is neither injective in the encoding nor a fresh UUID: uniqueness of the ids (and, for ids of varying width, unambiguity of the composed cache key) is not shown")
-					}
+					hashIDUnique(c, rule, g, x, walk)
 				}
 			}
 		}
@@ -727,8 +793,60 @@ func hashKeyInjective(c *core.Ctx, f *ssa.Function, rule string) {
 		// no interning table: the returned hash itself must be injective in the encoding
 		for _, rt := range c19Returns(f) {
 			if len(rt.Results) == 1 {
-				judge("returned hash", rt.Results[0], core.InstrPos(rt))
+				judge(core.FuncKey(f)+" returned hash", rt.Results[0], core.InstrPos(rt))
 			}
+		}
+	}
+}
+
+// hashIDUnique: the id handed out for a new encoding: distinct encodings must get distinct ids — the stored value is
+// injective in the encoding, or a fresh random UUID (seed C13-11 stored a CRC-32 of the encoding; seeds C15-10/C20-10 a
+// decimal running number, whose varying width makes the composed cache key ambiguous once the separator is dropped).
+func hashIDUnique(c *core.Ctx, rule string, g *ssa.Function, x *ssa.MapUpdate, walk func(v ssa.Value, seen map[ssa.Value]bool) (bool, string, string)) {
+	reached, lossy, unknown := walk(x.Value, map[ssa.Value]bool{})
+	vkey := core.FuncKey(g) + " interned hash value"
+	pos := core.InstrPos(x)
+	switch {
+	case reached && lossy != "":
+		c.Bad(rule, vkey, pos, "the id stored for a new encoding derives from the encoding through "+lossy+", which is not injective: two different declarations get the same hash and are served each other's cached values")
+	case reached && unknown != "":
+		c.Unknown(rule, vkey, pos, "the id stored for a new encoding derives from it through "+unknown+", which is not in the rule's table of injective steps")
+	case reached:
+		c.OK(rule, vkey, pos, "injective in the encoding")
+	default:
+		fresh := false
+		seenV := map[ssa.Value]bool{}
+		var scan func(v ssa.Value, d int)
+		scan = func(v ssa.Value, d int) {
+			if v == nil || seenV[v] || d > 8 {
+				return
+			}
+			seenV[v] = true
+			if call, ok := v.(*ssa.Call); ok {
+				if o := core.CalleeObj(call); o != nil && o.Pkg() != nil && (o.Pkg().Path() == "github.com/google/uuid" || o.Pkg().Path() == "crypto/rand") {
+					fresh = true
+				}
+				if cf := call.Call.StaticCallee(); cf != nil && cf.Blocks != nil && core.InRepo(core.FuncPkg(cf)) {
+					for _, rt := range c19Returns(cf) {
+						for _, r := range rt.Results {
+							scan(r, d+1)
+						}
+					}
+				}
+			}
+			if ins, ok := v.(ssa.Instruction); ok {
+				for _, op := range ins.Operands(nil) {
+					if *op != nil {
+						scan(*op, d+1)
+					}
+				}
+			}
+		}
+		scan(x.Value, 0)
+		if fresh {
+			c.OK(rule, vkey, pos, "a fresh random UUID per new encoding (fixed width, unique)")
+		} else {
+			c.Unknown(rule, vkey, pos, "the id stored for a new encoding is neither injective in the encoding nor a fresh UUID: uniqueness of the ids (and, for ids of varying width, unambiguity of the composed cache key) is not shown")
 		}
 	}
 }
